@@ -1,0 +1,667 @@
+//go:build verif
+
+/*
+ Licensed to the Apache Software Foundation (ASF) under one
+ or more contributor license agreements.  See the NOTICE file
+ distributed with this work for additional information
+ regarding copyright ownership.  The ASF licenses this file
+ to you under the Apache License, Version 2.0 (the
+ "License"); you may not use this file except in compliance
+ with the License.  You may obtain a copy of the License at
+
+     http://www.apache.org/licenses/LICENSE-2.0
+
+ Unless required by applicable law or agreed to in writing, software
+ distributed under the License is distributed on an "AS IS" BASIS,
+ WITHOUT WARRANTIES OR CONDITIONS OF ANY KIND, either express or implied.
+ See the License for the specific language governing permissions and
+ limitations under the License.
+*/
+
+// This file replaces locking.go when the build tag "verif" is set (verification harness only).
+// The first part is the unchanged content of locking.go (go-deadlock configuration); the second
+// part wraps Lock/Unlock/RLock/RUnlock with lock-nesting tracing and optional seed-driven yields.
+// Without an active trace (VerifLockTraceStart) the wrappers cost one atomic load.
+
+package locking
+
+import (
+	"fmt"
+	"os"
+	"runtime"
+	"sort"
+	"strconv"
+	"strings"
+	"sync"
+	"sync/atomic"
+	"time"
+	"unsafe"
+
+	godeadlock "github.com/sasha-s/go-deadlock"
+
+	"github.com/apache/yunikorn-core/pkg/log"
+)
+
+const (
+	EnvDeadlockDetectionEnabled = "DEADLOCK_DETECTION_ENABLED"
+	EnvDeadlockTimeoutSeconds   = "DEADLOCK_TIMEOUT_SECONDS"
+	EnvExitOnDeadlock           = "DEADLOCK_EXIT"
+	EnvDisableLockOrder         = "DEADLOCK_DISABLE_LOCK_ORDER"
+)
+
+var (
+	once               sync.Once
+	trackingEnabled    atomic.Bool
+	timeoutSeconds     atomic.Int32
+	deadlockDetected   atomic.Bool
+	testingMode        atomic.Bool
+	exitOnDeadlock     atomic.Bool
+	disableOrderDetect atomic.Bool
+)
+
+type errorBuf struct {
+	data string
+	sync.Mutex
+}
+
+func (b *errorBuf) Write(p []byte) (n int, err error) {
+	if b == nil {
+		return len(p), nil
+	}
+	b.Lock()
+	defer b.Unlock()
+	b.data += string(p)
+	return len(p), nil
+}
+
+func init() {
+	once.Do(reInit)
+}
+
+func reInit() {
+	enabled, err := strconv.ParseBool(os.Getenv(EnvDeadlockDetectionEnabled))
+	if err != nil {
+		enabled = false
+	}
+	trackingEnabled.Store(enabled)
+
+	var timeoutSec int64
+	timeoutSec, err = strconv.ParseInt(os.Getenv(EnvDeadlockTimeoutSeconds), 10, 32)
+	if err != nil {
+		timeoutSec = 60
+	}
+	timeoutSeconds.Store(int32(timeoutSec))
+
+	var disableOrder bool
+	disableOrder, err = strconv.ParseBool(os.Getenv(EnvDisableLockOrder))
+	if err != nil {
+		disableOrder = false
+	}
+	disableOrderDetect.Store(disableOrder)
+
+	var exitOnDetect bool
+	exitOnDetect, err = strconv.ParseBool(os.Getenv(EnvExitOnDeadlock))
+	if err != nil {
+		exitOnDetect = false
+	}
+	exitOnDeadlock.Store(exitOnDetect)
+
+	// set deadlock detection options
+	godeadlock.Opts.Disable = !enabled
+	godeadlock.Opts.DeadlockTimeout = time.Duration(timeoutSec) * time.Second
+	godeadlock.Opts.LogBuf = &errorBuf{}
+	godeadlock.Opts.OnPotentialDeadlock = onPotentialDeadlock
+	godeadlock.Opts.DisableLockOrderDetection = disableOrder
+
+	if enabled {
+		// We want to ensure that we write this before any other subsystem is initialized, including logging which may also use locks.
+		// no way to handle errors just ignore
+		_, _ = fmt.Fprintf(os.Stderr, "=== Deadlock detection enabled (timeout: %d seconds, exit on deadlock: %t, locking order disabled: %t) ===\n", timeoutSec, exitOnDetect, disableOrder)
+	}
+}
+
+func onPotentialDeadlock() {
+	deadlockDetected.Store(true)
+	printBufContents()
+	if exitOnDeadlock.Load() && !testingMode.Load() {
+		os.Exit(1)
+	}
+}
+
+func printBufContents() {
+	buf, ok := godeadlock.Opts.LogBuf.(*errorBuf)
+	buf.Lock()
+	defer buf.Unlock()
+	if !ok {
+		log.Log(log.Diagnostics).Error("POTENTIAL DEADLOCK: No details available")
+	} else {
+		log.Log(log.Diagnostics).Error(buf.data)
+	}
+	buf.data = ""
+}
+
+func IsTrackingEnabled() bool {
+	return trackingEnabled.Load()
+}
+
+func GetDeadlockTimeoutSeconds() int {
+	return int(timeoutSeconds.Load())
+}
+
+func IsDeadlockDetected() bool {
+	return deadlockDetected.Load()
+}
+
+// ---- lock wrappers with nesting trace (build tag verif) ----
+
+// Mutex has the same layout and method set as in locking.go.
+type Mutex struct {
+	godeadlock.Mutex
+}
+
+// RWMutex has the same layout and method set as in locking.go.
+type RWMutex struct {
+	godeadlock.RWMutex
+}
+
+func (m *Mutex) Lock() {
+	if !verifTracing.Load() {
+		m.Mutex.Lock()
+		return
+	}
+	g, pcs := verifRequest(unsafe.Pointer(m), false)
+	m.Mutex.Lock()
+	g.acquired(unsafe.Pointer(m), false, pcs)
+}
+
+func (m *Mutex) Unlock() {
+	if !verifTracing.Load() {
+		m.Mutex.Unlock()
+		return
+	}
+	g := verifRelease(unsafe.Pointer(m))
+	m.Mutex.Unlock()
+	g.maybeYield()
+}
+
+func (m *RWMutex) Lock() {
+	if !verifTracing.Load() {
+		m.RWMutex.Lock()
+		return
+	}
+	g, pcs := verifRequest(unsafe.Pointer(m), false)
+	m.RWMutex.Lock()
+	g.acquired(unsafe.Pointer(m), false, pcs)
+}
+
+func (m *RWMutex) Unlock() {
+	if !verifTracing.Load() {
+		m.RWMutex.Unlock()
+		return
+	}
+	g := verifRelease(unsafe.Pointer(m))
+	m.RWMutex.Unlock()
+	g.maybeYield()
+}
+
+func (m *RWMutex) RLock() {
+	if !verifTracing.Load() {
+		m.RWMutex.RLock()
+		return
+	}
+	g, pcs := verifRequest(unsafe.Pointer(m), true)
+	m.RWMutex.RLock()
+	g.acquired(unsafe.Pointer(m), true, pcs)
+}
+
+func (m *RWMutex) RUnlock() {
+	if !verifTracing.Load() {
+		m.RWMutex.RUnlock()
+		return
+	}
+	g := verifRelease(unsafe.Pointer(m))
+	m.RWMutex.RUnlock()
+	g.maybeYield()
+}
+
+// ---- trace state ----
+
+const (
+	verifShards  = 64
+	verifPCDepth = 6
+)
+
+// VerifEdge is one observed nesting: a goroutine requested lock To while it held lock From
+// (From != To; From was still held at the time of the request).
+type VerifEdge struct {
+	From, To   uintptr  // addresses of the lock objects (kept alive until the next VerifLockTraceStart)
+	Seq        uint64   // order of first observation
+	Count      uint64   // number of times the nesting was observed
+	HeldRead   bool     // some observation held From through RLock
+	HeldWrite  bool     // some observation held From through Lock
+	ReqRead    bool     // some observation requested To through RLock
+	ReqWrite   bool     // some observation requested To through Lock
+	Site       []string // call stack (innermost first) of the first request of To under From
+	HeldSite   []string // call stack of the acquisition of From in that observation
+	FromType   string   // receiver type of the function that acquired From, e.g. "objects.Queue"
+	ToType     string   // receiver type of the function that requested To
+	Roles      []string // roles (VerifLockSetRole) of the goroutines that showed the nesting; "" = unnamed goroutine
+	Goroutines int      // number of distinct goroutines that showed the nesting
+}
+
+// VerifReentry is a request of a lock the goroutine already holds (recursive RLock).
+type VerifReentry struct {
+	Lock     uintptr
+	Count    uint64
+	Read     bool // the new request was an RLock
+	HeldRead bool // the lock was held through RLock
+	Site     []string
+	HeldSite []string
+	Type     string
+}
+
+// VerifLockCounters are totals of one trace.
+type VerifLockCounters struct {
+	Acquires       uint64 // Lock/RLock calls seen
+	Nested         uint64 // requests made while at least one other lock was held
+	MaxDepth       uint64 // largest number of distinct locks held by one goroutine
+	UnknownRelease uint64 // Unlock/RUnlock of a lock the calling goroutine did not hold in the trace
+	Yields         uint64 // seed-driven yields performed
+}
+
+type verifHeld struct {
+	p    unsafe.Pointer
+	read bool
+	n    int // recursion count (RLock taken again by the same goroutine)
+	pcs  [verifPCDepth]uintptr
+}
+
+type verifG struct {
+	id   int64
+	role string
+	held []verifHeld
+	rng  uint64
+}
+
+type verifEdgeKey struct{ from, to unsafe.Pointer }
+
+type verifEdgeRec struct {
+	seq                                    uint64
+	count                                  uint64
+	heldRead, heldWrite, reqRead, reqWrite bool
+	pcs, heldPcs                           [verifPCDepth]uintptr
+	roles                                  map[string]struct{}
+	gids                                   map[int64]struct{}
+}
+
+type verifReRec struct {
+	count          uint64
+	read, heldRead bool
+	pcs, heldPcs   [verifPCDepth]uintptr
+}
+
+var (
+	verifTracing atomic.Bool
+	verifSeed    atomic.Uint64
+	verifSeq     atomic.Uint64
+	verifGs      [verifShards]struct {
+		sync.Mutex
+		m map[int64]*verifG
+	}
+	verifEdges [verifShards]struct {
+		sync.Mutex
+		m map[verifEdgeKey]*verifEdgeRec
+	}
+	verifReMu      sync.Mutex
+	verifRe        map[unsafe.Pointer]*verifReRec
+	verifRoleMu    sync.Mutex
+	verifRoles     map[int64]string
+	verifAcquires  atomic.Uint64
+	verifNested    atomic.Uint64
+	verifMaxDepth  atomic.Uint64
+	verifUnknown   atomic.Uint64
+	verifYields    atomic.Uint64
+	verifLastStats VerifLockCounters
+)
+
+// VerifLockTraceStart clears the trace and switches tracing on. seed != 0 additionally makes
+// the wrappers yield (runtime.Gosched, rarely a microsecond sleep) at pseudo-random lock operations.
+func VerifLockTraceStart(seed uint64) {
+	verifTracing.Store(false)
+	for i := range verifGs {
+		verifGs[i].Lock()
+		verifGs[i].m = map[int64]*verifG{}
+		verifGs[i].Unlock()
+		verifEdges[i].Lock()
+		verifEdges[i].m = map[verifEdgeKey]*verifEdgeRec{}
+		verifEdges[i].Unlock()
+	}
+	verifReMu.Lock()
+	verifRe = map[unsafe.Pointer]*verifReRec{}
+	verifReMu.Unlock()
+	verifRoleMu.Lock()
+	verifRoles = map[int64]string{}
+	verifRoleMu.Unlock()
+	verifSeq.Store(0)
+	verifAcquires.Store(0)
+	verifNested.Store(0)
+	verifMaxDepth.Store(0)
+	verifUnknown.Store(0)
+	verifYields.Store(0)
+	verifSeed.Store(seed)
+	verifTracing.Store(true)
+}
+
+// VerifLockSetRole names the calling goroutine in the edges it produces.
+func VerifLockSetRole(role string) {
+	verifRoleMu.Lock()
+	if verifRoles != nil {
+		verifRoles[verifGoid()] = role
+	}
+	verifRoleMu.Unlock()
+	if verifTracing.Load() {
+		verifGet().role = role
+	}
+}
+
+// VerifLockTraceStop switches tracing off and returns the observed nesting relation ordered by
+// first observation. The lock objects stay referenced (their addresses cannot be reused) until
+// the next VerifLockTraceStart.
+func VerifLockTraceStop() []VerifEdge {
+	verifTracing.Store(false)
+	verifLastStats = VerifLockCounters{Acquires: verifAcquires.Load(), Nested: verifNested.Load(), MaxDepth: verifMaxDepth.Load(),
+		UnknownRelease: verifUnknown.Load(), Yields: verifYields.Load()}
+	var out []VerifEdge
+	for i := range verifEdges {
+		verifEdges[i].Lock()
+		for k, r := range verifEdges[i].m {
+			e := VerifEdge{From: uintptr(k.from), To: uintptr(k.to), Seq: r.seq, Count: r.count, HeldRead: r.heldRead, HeldWrite: r.heldWrite,
+				ReqRead: r.reqRead, ReqWrite: r.reqWrite, Site: verifFrames(r.pcs), HeldSite: verifFrames(r.heldPcs), Goroutines: len(r.gids)}
+			e.FromType, e.ToType = verifRecvType(e.HeldSite), verifRecvType(e.Site)
+			for role := range r.roles {
+				e.Roles = append(e.Roles, role)
+			}
+			sort.Strings(e.Roles)
+			out = append(out, e)
+		}
+		verifEdges[i].Unlock()
+	}
+	sort.Slice(out, func(i, j int) bool { return out[i].Seq < out[j].Seq })
+	return out
+}
+
+// VerifLockReentries returns the recursive acquisitions seen by the last trace.
+func VerifLockReentries() []VerifReentry {
+	verifReMu.Lock()
+	defer verifReMu.Unlock()
+	var out []VerifReentry
+	for p, r := range verifRe {
+		x := VerifReentry{Lock: uintptr(p), Count: r.count, Read: r.read, HeldRead: r.heldRead, Site: verifFrames(r.pcs), HeldSite: verifFrames(r.heldPcs)}
+		x.Type = verifRecvType(x.Site)
+		out = append(out, x)
+	}
+	sort.Slice(out, func(i, j int) bool { return out[i].Lock < out[j].Lock })
+	return out
+}
+
+// VerifLockStats returns the counters of the last stopped trace.
+func VerifLockStats() VerifLockCounters { return verifLastStats }
+
+// VerifLockAddr returns the address used in the trace for a lock.
+func VerifLockAddr(m *RWMutex) uintptr { return uintptr(unsafe.Pointer(m)) }
+
+// VerifMutexAddr returns the address used in the trace for a lock.
+func VerifMutexAddr(m *Mutex) uintptr { return uintptr(unsafe.Pointer(m)) }
+
+// verifGoidSlow reads the goroutine id from the first line of the stack dump ("goroutine 123 [running]:").
+func verifGoidSlow() int64 {
+	var buf [40]byte
+	n := runtime.Stack(buf[:], false)
+	var id int64
+	for i := len("goroutine "); i < n; i++ {
+		c := buf[i]
+		if c < '0' || c > '9' {
+			break
+		}
+		id = id*10 + int64(c-'0')
+	}
+	return id
+}
+
+func verifGet() *verifG {
+	id := verifGoid()
+	s := &verifGs[uint64(id)%verifShards]
+	s.Lock()
+	g := s.m[id]
+	if g == nil {
+		g = &verifG{id: id, rng: verifSeed.Load() ^ (uint64(id) * 0x9E3779B97F4A7C15)}
+		if s.m == nil {
+			s.m = map[int64]*verifG{}
+		}
+		s.m[id] = g
+		s.Unlock()
+		verifRoleMu.Lock()
+		g.role = verifRoles[id]
+		verifRoleMu.Unlock()
+		return g
+	}
+	s.Unlock()
+	return g
+}
+
+// verifRequest runs before the real lock call: it records one edge from every lock the goroutine
+// still holds to the requested one.
+func verifRequest(p unsafe.Pointer, read bool) (*verifG, [verifPCDepth]uintptr) {
+	var pcs [verifPCDepth]uintptr
+	runtime.Callers(3, pcs[:])
+	g := verifGet()
+	verifAcquires.Add(1)
+	if len(g.held) > 0 {
+		reentry := false
+		for i := range g.held {
+			if g.held[i].p == p {
+				reentry = true
+				verifReentry(p, read, &g.held[i], pcs)
+			}
+		}
+		if !reentry {
+			verifNested.Add(1)
+			for i := range g.held {
+				verifRecord(g, &g.held[i], p, read, pcs)
+			}
+		}
+	}
+	g.maybeYield()
+	return g, pcs
+}
+
+func (g *verifG) acquired(p unsafe.Pointer, read bool, pcs [verifPCDepth]uintptr) {
+	for i := range g.held {
+		if g.held[i].p == p {
+			g.held[i].n++
+			return
+		}
+	}
+	g.held = append(g.held, verifHeld{p: p, read: read, n: 1, pcs: pcs})
+	if d := uint64(len(g.held)); d > verifMaxDepth.Load() {
+		verifMaxDepth.Store(d)
+	}
+}
+
+func verifRelease(p unsafe.Pointer) *verifG {
+	g := verifGet()
+	for i := len(g.held) - 1; i >= 0; i-- {
+		if g.held[i].p == p {
+			g.held[i].n--
+			if g.held[i].n == 0 {
+				g.held = append(g.held[:i], g.held[i+1:]...)
+			}
+			return g
+		}
+	}
+	verifUnknown.Add(1)
+	return g
+}
+
+func verifRecord(g *verifG, h *verifHeld, p unsafe.Pointer, read bool, pcs [verifPCDepth]uintptr) {
+	k := verifEdgeKey{from: h.p, to: p}
+	s := &verifEdges[(uintptr(h.p)>>4^uintptr(p)>>9)%verifShards]
+	s.Lock()
+	r := s.m[k]
+	if r == nil {
+		r = &verifEdgeRec{seq: verifSeq.Add(1), pcs: pcs, heldPcs: h.pcs, roles: map[string]struct{}{}, gids: map[int64]struct{}{}}
+		if s.m == nil {
+			s.m = map[verifEdgeKey]*verifEdgeRec{}
+		}
+		s.m[k] = r
+	}
+	r.count++
+	if h.read {
+		r.heldRead = true
+	} else {
+		r.heldWrite = true
+	}
+	if read {
+		r.reqRead = true
+	} else {
+		r.reqWrite = true
+	}
+	r.roles[g.role] = struct{}{}
+	if len(r.gids) < 64 {
+		r.gids[g.id] = struct{}{}
+	}
+	s.Unlock()
+}
+
+func verifReentry(p unsafe.Pointer, read bool, h *verifHeld, pcs [verifPCDepth]uintptr) {
+	verifReMu.Lock()
+	r := verifRe[p]
+	if r == nil {
+		r = &verifReRec{read: read, heldRead: h.read, pcs: pcs, heldPcs: h.pcs}
+		if verifRe == nil {
+			verifRe = map[unsafe.Pointer]*verifReRec{}
+		}
+		verifRe[p] = r
+	}
+	r.count++
+	verifReMu.Unlock()
+}
+
+func (g *verifG) maybeYield() {
+	if verifSeed.Load() == 0 {
+		return
+	}
+	g.rng += 0x9E3779B97F4A7C15
+	z := g.rng
+	z = (z ^ (z >> 30)) * 0xBF58476D1CE4E5B9
+	z = (z ^ (z >> 27)) * 0x94D049BB133111EB
+	z ^= z >> 31
+	switch z & 15 {
+	case 0, 1:
+		verifYields.Add(1)
+		runtime.Gosched()
+	case 2:
+		if (z>>8)&15 == 0 {
+			verifYields.Add(1)
+			time.Sleep(time.Duration((z>>16)%40) * time.Microsecond)
+		}
+	}
+}
+
+func verifFrames(pcs [verifPCDepth]uintptr) []string {
+	n := 0
+	for n < len(pcs) && pcs[n] != 0 {
+		n++
+	}
+	if n == 0 {
+		return nil
+	}
+	var out []string
+	frames := runtime.CallersFrames(pcs[:n])
+	for {
+		f, more := frames.Next()
+		if f.Function != "" {
+			file := f.File
+			if i := strings.LastIndex(file, "/pkg/"); i >= 0 {
+				file = file[i+1:]
+			}
+			fn := strings.TrimPrefix(f.Function, "github.com/apache/yunikorn-core/pkg/")
+			out = append(out, fmt.Sprintf("%s %s:%d", fn, file, f.Line))
+		}
+		if !more {
+			break
+		}
+	}
+	return out
+}
+
+// verifRecvType extracts "pkg.Type" from the innermost frame "…/pkg.(*Type).Method file:line"
+// ("pkg.func" for plain functions).
+func verifRecvType(site []string) string {
+	if len(site) == 0 {
+		return "?"
+	}
+	fn := site[0]
+	if i := strings.Index(fn, " "); i >= 0 {
+		fn = fn[:i]
+	}
+	if i := strings.LastIndex(fn, "/"); i >= 0 {
+		fn = fn[i+1:]
+	}
+	if i := strings.Index(fn, ".("); i >= 0 {
+		j := strings.Index(fn[i:], ")")
+		if j > 0 {
+			return fn[:i] + "." + strings.TrimPrefix(fn[i+2:i+j], "*")
+		}
+	}
+	if i := strings.Index(fn, "."); i >= 0 {
+		// plain function or closure: pkg.func
+		rest := fn[i+1:]
+		if j := strings.Index(rest, "."); j >= 0 {
+			rest = rest[:j]
+		}
+		return fn[:i] + "." + rest
+	}
+	return fn
+}
+
+// ---- go-deadlock switch for the harness ----
+
+var (
+	verifReportMu sync.Mutex
+	verifReports  []string
+)
+
+// VerifDeadlockDetection configures go-deadlock the way the environment variables do at start-up
+// (same reInit as locking.go) and keeps the text of every report for VerifDeadlockReports.
+func VerifDeadlockDetection(enabled bool, timeoutSeconds int, lockOrder bool) {
+	_ = os.Setenv(EnvDeadlockDetectionEnabled, strconv.FormatBool(enabled))
+	_ = os.Setenv(EnvDeadlockTimeoutSeconds, strconv.Itoa(timeoutSeconds))
+	_ = os.Setenv(EnvDisableLockOrder, strconv.FormatBool(!lockOrder))
+	_ = os.Setenv(EnvExitOnDeadlock, "false")
+	deadlockDetected.Store(false)
+	verifReportMu.Lock()
+	verifReports = nil
+	verifReportMu.Unlock()
+	reInit()
+	godeadlock.Opts.OnPotentialDeadlock = func() {
+		if buf, ok := godeadlock.Opts.LogBuf.(*errorBuf); ok && buf != nil {
+			buf.Lock()
+			text := buf.data
+			buf.Unlock()
+			verifReportMu.Lock()
+			if len(verifReports) < 16 {
+				verifReports = append(verifReports, text)
+			}
+			verifReportMu.Unlock()
+		}
+		onPotentialDeadlock()
+	}
+}
+
+// VerifDeadlockReports returns the go-deadlock reports since the last VerifDeadlockDetection call.
+func VerifDeadlockReports() []string {
+	verifReportMu.Lock()
+	defer verifReportMu.Unlock()
+	return append([]string{}, verifReports...)
+}
